@@ -56,3 +56,4 @@ Example C01_example :
   map fst (snd (run_cache zeqd (-1) m0 ops)) =
     [CUnit; CUnit; CVal 7 true; CUnit; CVal (-1) false; CNat 0; CVal (-1) false; CNat 0].
 Proof. split; [repeat constructor; cbn; lia | vm_compute; reflexivity]. Qed.
+Print Assumptions C01_example.
